@@ -239,6 +239,7 @@ type lexClaim struct {
 }
 type uniRec struct {
 	S []int    `json:"s"`
+	F int      `json:"f"` // 0 = free sequence, >0 = filler in frame F (joined form only)
 	A lexClaim `json:"a"` // joined with one space
 	B lexClaim `json:"b"` // joined with nothing
 }
@@ -251,9 +252,8 @@ type job struct {
 	spaced bool
 }
 
-// event is what TLC validates: nothing but the abstract outcome and PyLex's class of the input.
+// event is what TLC validates: nothing but the abstract outcome.
 type event struct {
-	Lex    string   `json:"lex"`
 	Mode   string   `json:"mode"`
 	Kind   string   `json:"kind"`
 	Cls    string   `json:"cls"`
@@ -327,7 +327,7 @@ func show(src string) string {
 }
 
 func (c *collector) record(j *job, mode string, o observation) {
-	ev := event{Lex: j.lex.Lex, Mode: mode, Kind: o.Kind, Cls: o.Cls, Bases: o.Bases, File: o.File, Line: o.Line, Offset: o.Offset}
+	ev := event{Mode: mode, Kind: o.Kind, Cls: o.Cls, Bases: o.Bases, File: o.File, Line: o.Line, Offset: o.Offset}
 	if ev.Bases == nil {
 		ev.Bases = []string{}
 	}
@@ -526,7 +526,7 @@ func (p *pool) monitor() {
 					p.c.suspects = append(p.c.suspects, *s)
 					p.c.mu.Unlock()
 				}
-				p.spawn()              // replaced first, so the wait group never drops to zero early ...
+				p.spawn()            // replaced first, so the wait group never drops to zero early ...
 				w.done.Do(p.wg.Done) // ... then the stuck goroutine is written off
 			}
 		}
@@ -557,6 +557,21 @@ func (c *collector) rerunSuspects(limit time.Duration) {
 // ---------------------------------------------------------------------------------------
 // universe from TLC
 
+type seqSet struct {
+	mu sync.Mutex
+	m  map[string]bool
+}
+
+func (s *seqSet) testAndSet(k string) bool {
+	s.mu.Lock()
+	defer s.mu.Unlock()
+	old := s.m[k]
+	s.m[k] = true
+	return old
+}
+
+var framedTotal atomic.Int64
+
 func render(alpha []alphaItem, seq []int, spaced bool) (string, bool) {
 	var b bytes.Buffer
 	for i, id := range seq {
@@ -583,9 +598,8 @@ func describeSeq(alpha []alphaItem, seq []int, spaced bool) string {
 	return "alphabet sequence [" + strings.Join(parts, " | ") + "] " + sep
 }
 
-func runUniverse(env *common.Env, rep *common.Report, c *collector, p *pool, alpha []alphaItem, run common.TLCRun, seenSeq map[string]bool) (nseq int) {
+func runUniverse(env *common.Env, rep *common.Report, c *collector, p *pool, alpha []alphaItem, run common.TLCRun, seenSeq *seqSet) (nseq int) {
 	var bad atomic.Int64
-	var mu sync.Mutex
 	run.OnLine = func(b []byte) {
 		var r uniRec
 		if err := json.Unmarshal(b, &r); err != nil || len(r.S) == 0 {
@@ -593,14 +607,13 @@ func runUniverse(env *common.Env, rep *common.Report, c *collector, p *pool, alp
 			return
 		}
 		key := fmt.Sprint(r.S)
-		mu.Lock()
-		dup := seenSeq[key]
-		seenSeq[key] = true
-		mu.Unlock()
-		if dup {
+		if seenSeq.testAndSet(key) {
 			return
 		}
 		nseq++
+		if r.F > 0 {
+			framedTotal.Add(1)
+		}
 		for _, spaced := range []bool{true, false} {
 			if !spaced && len(r.S) == 1 {
 				continue // one item: both joinings are the same text
@@ -613,6 +626,9 @@ func runUniverse(env *common.Env, rep *common.Report, c *collector, p *pool, alp
 			lc := r.B
 			if spaced {
 				lc = r.A
+			}
+			if lc.Lex == "skip" {
+				continue
 			}
 			j := job{src: src, lex: lc, seq: r.S, spaced: spaced, origin: describeSeq(alpha, r.S, spaced)}
 			if nseq%50000 == 7 {
@@ -775,36 +791,63 @@ func main() {
 		return
 	}
 
-	// 1. design check of the stage machine
-	res := env.MustTLC(common.TLCRun{Dir: "C11", Module: "Pipeline", Config: "Pipeline.cfg", Timeout: 3 * time.Minute})
-	rep.AddTLC(res)
-	if len(res.Violations) > 0 || !res.Finished {
-		common.Inconclusive("property=C11 the stage machine fails its own invariants: %v\n%s", res.Violations, res.Stdout)
+	phase := map[string]float64{}
+	var phaseMu sync.Mutex
+	mark := time.Now()
+	lap := func(name string) {
+		phaseMu.Lock()
+		phase[name] = time.Since(mark).Seconds()
+		phaseMu.Unlock()
 	}
-
-	// 2. the universe, compiled as TLC prints it
+	// 1. design check of the stage machine  2. the universe, compiled as TLC prints it.
+	// The three TLC runs are independent; they run side by side and feed one worker pool.
 	p := newPool(c, env.Workers, 10*time.Second)
-	seen := map[string]bool{}
+	seen := &seqSet{m: map[string]bool{}}
 	cfg := "universe2.cfg"
 	if env.Thorough() {
 		cfg = "universe3.cfg"
 	}
-	nExh := runUniverse(env, rep, c, p, alpha, common.TLCRun{Dir: "C11", Module: "PipelineUniverse", Config: cfg, Timeout: 12 * time.Minute}, seen)
-	nSim := runUniverse(env, rep, c, p, alpha, common.TLCRun{Dir: "C11", Module: "PipelineUniverse", Config: "universe_sim.cfg",
-		Simulate: fmt.Sprintf("num=%d", env.Pick(4000, 60000)), Depth: 10, Seed: env.Seed, Timeout: 8 * time.Minute}, seen)
-
+	var nExh, nSim int
+	var tlcWG sync.WaitGroup
+	tlcWG.Add(3)
+	go func() {
+		defer tlcWG.Done()
+		res := env.MustTLC(common.TLCRun{Dir: "C11", Module: "Pipeline", Config: "Pipeline.cfg", Workers: 1, Timeout: 5 * time.Minute})
+		rep.AddTLC(res)
+		if len(res.Violations) > 0 || !res.Finished {
+			common.Inconclusive("property=C11 the stage machine fails its own invariants: %v\n%s", res.Violations, res.Stdout)
+		}
+		lap("tlc_pipeline_design_done_at")
+	}()
+	go func() {
+		defer tlcWG.Done()
+		nExh = runUniverse(env, rep, c, p, alpha, common.TLCRun{Dir: "C11", Module: "PipelineUniverse", Config: cfg, Timeout: 13 * time.Minute}, seen)
+		lap("universe_exhaustive_done_at")
+	}()
+	go func() {
+		defer tlcWG.Done()
+		nSim = runUniverse(env, rep, c, p, alpha, common.TLCRun{Dir: "C11", Module: "PipelineUniverse", Config: "universe_sim.cfg",
+			Simulate: fmt.Sprintf("num=%d", env.Pick(1000, 15000)), Depth: 10, Seed: env.Seed, Workers: 4, // num is per worker; a fixed worker count keeps the draws a function of the seed
+			Timeout: 10 * time.Minute}, seen)
+		lap("universe_simulated_done_at")
+	}()
+	tlcWG.Wait()
 	// 3. mutations of the repository's .py files
 	files, mutants := runMutations(env, rep, p, alpha, env.Pick(12, 150))
 	p.finish()
 	c.rerunSuspects(30 * time.Second)
+	lap("mutations_done_at")
 
 	// 4. TLC validates the distinct outcome events against Pipeline
 	validateEvents(env, rep, c)
+	lap("tlc_trace_validation_done_at")
+	rep.Extra["phase_seconds"] = phase
 
 	rep.Evaluations = c.compiles + c.lexRuns
 	rep.Distinct = int64(len(c.distinct))
 	rep.Rule = "cases = source texts: every sequence of 1.." + strconv.Itoa(env.Pick(2, 3)) + " items of the " + strconv.Itoa(len(alpha)) +
-		"-item alphabet (spec/C11/alphabet.ndjson) joined with and without a space (TLC, exhaustive), seeded TLC draws of 3..8 items, " +
+		"-item alphabet (spec/C11/alphabet.ndjson) joined with and without a space, every filler of 0.." + strconv.Itoa(env.Pick(1, 2)) +
+		" items in each grammatical frame of PipelineUniverse.tla (TLC, exhaustive), seeded TLC draws of 3..8 free items and 2..4 filler items, " +
 		"and seeded byte/token mutations of every .py file of the repository; each compiled in exec, eval and single mode. " +
 		"distinct_nontrivial counts distinct source texts (SHA-1); evaluations counts py.Compile calls plus parser.LexString comparisons"
 	rep.Exhaustive = false
@@ -812,6 +855,7 @@ func main() {
 	rep.Extra["alphabet_items"] = len(alpha)
 	rep.Extra["sequences_exhaustive"] = nExh
 	rep.Extra["sequences_simulated"] = nSim
+	rep.Extra["sequences_in_frames"] = framedTotal.Load()
 	rep.Extra["repository_files"] = files
 	rep.Extra["mutants"] = mutants
 	rep.Extra["compiles"] = c.compiles
@@ -894,7 +938,7 @@ func validateEvents(env *common.Env, rep *common.Report, c *collector) {
 func divergence(e event) string {
 	switch e.Kind {
 	case "code":
-		return "lex=" + e.Lex + "|observed=code"
+		return "observed=code"
 	case "exc":
 		s := "observed=exc:" + e.Cls
 		var miss []string
